@@ -158,6 +158,14 @@ pub mod sup {
         }
     }
 
+    pub static STATIC_REFS: [&'static u8; 4] = [&STATIC_U8S[3], &STATIC_U8S[2], &STATIC_U8S[1], &STATIC_U8S[0]];
+    impl Sym for &'static &'static u8 {
+        fn sym() -> Self {
+            let i = kani::any::<u8>() & 3;
+            &STATIC_REFS[i as usize]
+        }
+    }
+
     /// `==` modulo 4: shows that an impl uses the field type's own `==`, not its bytes.
     #[derive(Clone, Copy, Debug)]
     pub struct Mod4(pub u8);
